@@ -67,6 +67,9 @@ func plusClass(labels []string) string {
 	return strings.Join(cls, "+")
 }
 
+// isPlus: the bundle uses a feature of W+ (its auxiliary documents are then not necessarily all referenced).
+func isPlus(labels []string) bool { return plusClass(labels) != "bundle of W" }
+
 func hasDangling(labels []string) bool {
 	for _, l := range labels {
 		if strings.Contains(l, "dangling") || strings.Contains(l, "Dangling") {
@@ -196,6 +199,55 @@ func c09Faults(c *Ctx, in *flatInput, o h.Opts, bound int) {
 	}
 }
 
+// c09MissingDocs: document-level faults. For every auxiliary document of a bundle of W (every one of them is referenced),
+// the whole run is made with that document unavailable: EVERY load of it fails. Without ContinueOnError Flatten must
+// return an error. (The per-call fault enumeration cannot see a load that never happens, e.g. one served from a cache
+// filled by an earlier call in the same process; the preceding fault-free run of the same bundle plays that earlier call.)
+func c09MissingDocs(c *Ctx, in *flatInput, o h.Opts) {
+	if o.ContinueOnError {
+		return
+	}
+	base := h.RunFlatten(in.B, o, h.Env{Policy: mcrt.Asc}, nil)
+	c.Execs++
+	if !base.OK() {
+		return
+	}
+	for _, f := range h.SortedKeys(filesAsAny(in.B.Files)) {
+		if f == in.B.Root {
+			continue
+		}
+		f := f
+		res := h.RunFlatten(in.B, o, h.Env{Policy: mcrt.Asc}, func(n int, path string) h.FaultKind {
+			if path == f {
+				return h.FaultError
+			}
+			return h.NoFault
+		})
+		c.Execs++
+		c.Validated++
+		c.Outcome(res.Hash())
+		viol := func(sig, what string) {
+			c.Violate(&Violation{Signature: sig, What: what, Generator: "c09", Input: in.B, Env: J{"policy": 0, "opts": o, "kind": "missingdoc", "file": f}})
+		}
+		switch {
+		case res.Horizon:
+			viol("Flatten diverges when a referenced document cannot be loaded", f)
+		case res.Panic != "":
+			viol("Flatten panics when a referenced document cannot be loaded at "+res.PanicFrame+": "+panicClass(res.Panic), f+": "+res.Panic)
+		case res.Err == "":
+			viol("Flatten reports success although a referenced document cannot be loaded ("+modeOf(o)+")", fmt.Sprintf("every load of %s fails (it loaded fine in the preceding call on the same bundle), options %s; output: %s", f, o, res.Out))
+		}
+	}
+}
+
+func filesAsAny(m map[string]string) map[string]any {
+	out := map[string]any{}
+	for k := range m {
+		out[k] = nil
+	}
+	return out
+}
+
 func init() {
 	register(&Check{ID: "C09", Run: func(c *Ctx) {
 		_, wPairs := flatCatalogues(c)
@@ -253,6 +305,9 @@ func init() {
 						b = 2
 					}
 					c09Faults(c, in, o, b)
+					if !isPlus(in.Labels) {
+						c09MissingDocs(c, in, o)
+					}
 				}
 			}
 			if len(c.Samples) < 3 && len(idx) == 2 {
@@ -311,6 +366,8 @@ func init() {
 			c09Flatten(c, in, o, pol)
 		case "new", "schema":
 			c09NewAndSchema(c, in, pol)
+		case "missingdoc":
+			c09MissingDocs(c, in, o)
 		case "fault":
 			var choices []int
 			cb, _ := json.Marshal(v.Env["choices"])
